@@ -74,9 +74,10 @@ _public_ int m_list_itr_next(m_list_itr_t **itr) {
     
     m_list_itr_t *i = *itr;
     if (*i->elem) {
-        if (i->diff >= 0) {
+        /* Skip current element plus any element inserted before it through the iterator */
+        for (ssize_t k = 0; k <= i->diff && *i->elem; k++) {
             i->elem = &((*i->elem)->next);
-        } 
+        }
         i->diff = 0;
     }
     if (!*(i->elem)) {
